@@ -30,6 +30,7 @@ type Features struct {
 	NoRecursiveDecorators                                bool // a decorator is not used inside its own decorated block
 	OnePatternPerCond                                    bool // at most one pattern (line pattern or match operator) per condition
 	NoMixedMetricReads                                   bool // no metric reads inside mixed Int/Float arithmetic or comparisons
+	OddDurations                                         bool // del ... after with sub-second and mixed-unit durations (C23)
 	ShortExpiry                                          bool // del ... after uses 1ms as well (so that a GC pass a few ms later removes the datum)
 	MaxStmts, MaxDepth, MaxExprDepth                     int
 }
@@ -181,7 +182,7 @@ func (g *G) genDecls() {
 			for k := 0; k < nk; k++ {
 				key := fmt.Sprintf("k%d", k)
 				if g.F.QuotedKeys && g.chance("quotedkey", 25) {
-					key = pick(g, "qkey", []string{"a-b", "x.y", "with space", "9lives"}) + fmt.Sprint(k)
+					key = pick(g, "qkey", []string{"a-b", "x.y", "with space", "9lives", "_kind", "__"}) + fmt.Sprint(k)
 					g.class("quoted-key")
 				}
 				m.Keys = append(m.Keys, key)
@@ -788,6 +789,8 @@ func (g *G) genBlock(depth, n int, ctx blockCtx) []*Stmt {
 			if g.F.DelAfter && g.chance("after", 40) {
 				if g.F.ShortExpiry {
 					st.After = pick(g, "sdur", []string{"1ms", "1ms", "1h"})
+				} else if g.F.OddDurations {
+					st.After = pick(g, "odur", []string{"1h", "90m", "1500ms", "1.5s", "1m0.25s", "500ms", "2h0m0.5s", "36h", "45s", "1h30m"})
 				} else {
 					st.After = pick(g, "dur", []string{"1h", "24h", "90m", "1h30m"})
 				}
